@@ -910,7 +910,12 @@ class segment_if(x12_node):
                 else:
                     return (False, None, None, None)
             else:
-                return (True, None, None, None)
+                # No qualifier element by the rules above: the bracketed value
+                # still has to be the value of the first element
+                first = seg_data.get_value('01-1') if self.children[0].is_composite() else seg_data.get_value('01')
+                if first == qual_code:
+                    return (True, qual_code, 1, 1 if self.children[0].is_composite() else None)
+                return (False, None, None, None)
         else:
             return (False, None, None, None)
 
